@@ -68,6 +68,13 @@ def materialise(t):
         df["kind"] = v
     elif dt.get("kind") == "object":
         df["kind"] = df["kind"].astype(object)
+    # float columns that are summed over groups directly carry a fractional part that is exact in binary
+    adult = df["alter"].to_numpy() >= 18
+    df["priv_rentenv_beitr_m"] = np.where(adult, 100.5, 0.0)
+    df["vermögen_bedürft"] = np.where(adult, 4000.5, 0.0)
+    if dt.get("bruttolohn_m") == "float_as_float32":      # the float inputs stored as float32 (all values exactly representable)
+        for c_ in ("bruttolohn_m", "priv_rentenv_beitr_m", "vermögen_bedürft"):
+            df[c_] = df[c_].astype(np.float32)
     if dt.get("bruttolohn_m") == "float_as_int":
         df["bruttolohn_m"] = df["bruttolohn_m"].astype(np.int64)
     elif dt.get("bruttolohn_m") == "object":
